@@ -22,6 +22,12 @@ type verifGenReq struct {
 	Toolchain []string            // versions of golang.org/toolchain
 	Proxy     map[string][]string // module -> versions
 	Paddings  map[string][5]int   // program -> releases, maj, majmin, patch, pre
+	// NoHook: leave versionsForTesting unset, so that generate goes through the
+	// real listProxyVersions path (`go list -m --versions`, answered by a fake
+	// `go` that the harness puts first on PATH). All requests of one process
+	// then share whatever state that path keeps, as the two generate calls of
+	// main() do.
+	NoHook bool
 }
 type verifPadReq struct {
 	Versions []string
@@ -68,12 +74,16 @@ func verifGen(q verifGenReq) (r verifGenResp) {
 			r = verifGenResp{Status: "panic", Detail: fmt.Sprint(e)}
 		}
 	}()
-	// fresh slices on every call: generate filters the proxy list in place
-	vt := map[string][]string{"golang.org/toolchain": append([]string(nil), q.Toolchain...)}
-	for m, vs := range q.Proxy {
-		vt[m] = append([]string(nil), vs...)
+	if q.NoHook {
+		versionsForTesting = nil
+	} else {
+		// fresh slices on every call: generate filters the proxy list in place
+		vt := map[string][]string{"golang.org/toolchain": append([]string(nil), q.Toolchain...)}
+		for m, vs := range q.Proxy {
+			vt[m] = append([]string(nil), vs...)
+		}
+		versionsForTesting = vt
 	}
-	versionsForTesting = vt
 	pads := map[string]padding{}
 	for p, a := range q.Paddings {
 		pads[p] = verifPadding(a)
